@@ -53,8 +53,9 @@ impl Vector<f64> {
     pub fn norm_inf(&self) -> f64 {
         let mut result = self.vec[0].abs();
         for i in 1..self.size() {
-            if result < self.vec[i].abs() {
-                result = self.vec[i].abs();
+            let abs = self.vec[i].abs();
+            if result < abs || abs.is_nan() {
+                result = abs;
             }
         }
         result
